@@ -1,6 +1,6 @@
 SPECIFICATION MCSpec
 CONSTANTS
-  Consuming = FALSE
+  PersistCursor = FALSE
   MaxOps = 5
   MaxReopens = 3
   MaxIndex = 3
